@@ -412,8 +412,38 @@ Fixpoint step_at (classify : str -> option request) (handler : str -> lookup)
   | c :: r, O => step classify handler c e :: r
   | c :: r, S i' => c :: step_at classify handler r i' e
   end.
+(* What a teardown of connection i does to the OTHER connections when the set of calls in flight is not
+   per connection (connection_state_per_instance = false, GENERATED): `for task in list(self._tasks):
+   task.cancel()` reaches their handlers too; each of them is cancelled and, the CancelledError being
+   captured, answers with a generic failure on its own connection. *)
+Definition cancel_all_inflight (c : conn) : conn :=
+  let infl := c_inflight c in
+  let c1 := mk_conn (c_rd c) (c_recv c) (c_send c) (c_stop c) (c_fail c) [] (c_queue c) (c_wire c)
+                    (c_dropped c) (c_received c) (c_completed c)
+                    (c_cancelled c ++ map fst infl) (c_invoked c) (c_racy c) in
+  pump_send (fold_left (fun acc r => enqueue r acc) (cancel_replies infl) c1).
+
+Definition newly_failed (before after : option conn) : bool :=
+  match before, after with
+  | Some b, Some a => match c_fail b, c_fail a with FNone, FNone => false | FNone, _ => true | _, _ => false end
+  | _, _ => false
+  end.
+
+Fixpoint map_others (f : conn -> conn) (d : director) (i : nat) : director :=
+  match d, i with
+  | [], _ => []
+  | c :: r, O => c :: map f r
+  | c :: r, S i' => f c :: map_others f r i'
+  end.
+
+Definition step_dir (classify : str -> option request) (handler : str -> lookup)
+           (d : director) (i : nat) (e : event) : director :=
+  let d' := step_at classify handler d i e in
+  if connection_state_per_instance then d'
+  else if newly_failed (nth_error d i) (nth_error d' i) then map_others cancel_all_inflight d' i else d'.
+
 Definition run_director classify handler (d : director) (evs : list (nat * event)) : director :=
-  fold_left (fun d ie => step_at classify handler d (fst ie) (snd ie)) evs d.
+  fold_left (fun d ie => step_dir classify handler d (fst ie) (snd ie)) evs d.
 
 (* The handler of the director: exactly the generated @allow_rpc list is exposed. *)
 Definition director_handler (name : str) : lookup :=
